@@ -287,6 +287,104 @@ def cmp_result(ctx, kind, a, b, mode, j, desc, only_window=False):
               lambda: "line %d: logits inside the frame window differ (shapes %r %r); " % (j, wa.shape, wb.shape) + desc())
 
 
+# ---------------------------------------------------------------- models with an embedding input (engine.embed_id)
+_EMB = {}
+
+
+def emb_engine(C, embed_id):
+    import torch
+    from pero_ocr.ocr_engine.pytorch_ocr_engine import PytorchEngineLineOCR
+    from vlib.stubs import engine_json
+    with contextlib.redirect_stdout(io.StringIO()):
+        return PytorchEngineLineOCR(engine_json(CHARS[:C - 1], H, 0, None, 6, embed_id), torch.device("cpu"), batch_size=4)
+
+
+def strat_emb():
+    from hypothesis import strategies as st
+    crop = st.fixed_dictionaries(dict(T=st.integers(1, 20), tail=st.integers(0, 3), seed=st.integers(0, 2 ** 31 - 1), style=st.just("graded")))
+    return st.fixed_dictionaries(dict(C=st.integers(3, 6), crops=st.lists(crop, min_size=1, max_size=6),
+                                      ids=st.lists(st.integers(0, 5), min_size=2, max_size=4), no_logits=st.booleans()))
+
+
+def body_emb(ctx, case):
+    """models with a style embedding: user_scripts/select_embed_id.py changes engine.embed_id between process_lines
+    calls on one engine; every call must give what an engine configured with that id gives."""
+    C = case["C"]
+    imgs = [make_crop(s, C)[0] for s in case["crops"]]
+    key = ("live", C)
+    if key not in _EMB:
+        _EMB[key] = emb_engine(C, 0)
+    live = _EMB[key]
+    desc = lambda: "case=%r" % (case,)
+    seen = set()
+    for e in case["ids"]:
+        if ("ref", C, e) not in _EMB:
+            _EMB[("ref", C, e)] = emb_engine(C, e)
+        ref = _EMB[("ref", C, e)]
+        live.embed_id = e
+        with contextlib.redirect_stdout(io.StringIO()):
+            got = ctx.must("process_lines_raises", live.process_lines, [im.copy() for im in imgs], True, False, case["no_logits"])
+            want = ctx.must("process_lines_raises", ref.process_lines, [im.copy() for im in imgs], True, False, case["no_logits"])
+        ctx.check(list(got[0]) == list(want[0]), "result_depends_on_earlier_embedding_id",
+                  lambda: "embed_id %d after %r: %r, engine configured with that id: %r; " % (e, sorted(seen), got[0], want[0]) + desc())
+        if not case["no_logits"]:
+            ctx.check(all((a != b).nnz == 0 for a, b in zip(got[1], want[1])), "logits_depend_on_earlier_embedding_id", desc)
+        seen.add(e)
+    if len(set(case["ids"])) >= 2:
+        ctx.nontrivial(("emb", repr(case)))
+
+
+# ---------------------------------------------------------------- engines that split long lines (transformer mode)
+def strat_split():
+    from checks.c15_stitching import strat_lines
+    return strat_lines()
+
+
+def body_split(ctx, case):
+    """BaseEngineLineOCR.process_lines with model_type 'transformer' and max_line_width: lines wider than the limit are
+    recognised window by window and stitched. Position independence is the same promise as for CTC engines."""
+    from checks.c15_stitching import make_engine, paint
+    lines_classes, mlw, bs, trims = case
+    imgs = []
+    for cl, tr in zip(lines_classes, trims):
+        im = paint(cl)
+        if tr and im.shape[1] > tr:
+            im = im[:, :im.shape[1] - tr]
+        imgs.append(im)
+    no_logits = trims[-1] % 2 == 1
+    desc = lambda: "classes=%r max_line_width=%d batch_size=%d no_logits=%r" % (lines_classes, mlw, bs, no_logits)
+
+    def run(images, batch_size):
+        eng = make_engine(mlw, batch_size, [])
+        with contextlib.redirect_stdout(io.StringIO()):
+            return eng.process_lines([im.copy() for im in images], False, False, no_logits)
+    ts, ls, cs = ctx.must("process_lines_raises", run, imgs, bs)
+    ctx.check(len(ts) == len(imgs) == len(ls) == len(cs), "result_count", desc)
+    n = len(imgs)
+    rev = ctx.must("process_lines_raises", run, imgs[::-1], bs)
+    other = ctx.must("process_lines_raises", run, imgs, 1 + bs % 4)
+    for i in range(n):
+        alone = ctx.must("process_lines_raises", run, [imgs[i]], bs)
+        info = lambda: "line %d (width %d): in the list %r, alone %r, list reversed %r, other batch size %r; " % (
+            i, imgs[i].shape[1], ts[i], alone[0][0], rev[0][n - 1 - i], other[0][i]) + desc()
+        ctx.check(ts[i] == alone[0][0], "depends_on_batch_companions", info)
+        ctx.check(ts[i] == rev[0][n - 1 - i], "depends_on_list_order", info)
+        ctx.check(ts[i] == other[0][i], "depends_on_batch_size", info)
+        if no_logits:
+            ctx.check(ls[i] is None, "logits_returned_in_no_logits_mode", info)
+        else:
+            ctx.check(ls[i] is not None and alone[1][0] is not None and ls[i].shape == alone[1][0].shape
+                      and np.array_equal(ls[i][:, 1], alone[1][0][:, 1]), "logit_rows_depend_on_batch_companions", info)
+            ctx.check(list(cs[i]) == list(alone[2][0]), "window_depends_on_batch_companions", info)
+    ctx.event("no_logits" if no_logits else "dense_logits")
+    widths = [im.shape[1] for im in imgs]
+    if n >= 2 and any(w > mlw for w in widths) and any(w <= mlw for w in widths):
+        ctx.event("split_and_unsplit_lines_together")
+        ctx.nontrivial(("split", repr(case)))
+
+
 UNITS = [
     Unit("process_lines", "given", body=body, strategy=strat, quick=250, thorough=5000, shards_quick=8),
+    Unit("split_lines", "given", body=body_split, strategy=strat_split, quick=300, thorough=4000),
+    Unit("embedding_id", "given", body=body_emb, strategy=strat_emb, quick=200, thorough=3000),
 ]
